@@ -54,6 +54,9 @@ type Ctx struct {
 	ctrFile   map[*FuncContract]*SpecFile
 	assumptionsUsed map[string]bool
 	curFile *SpecFile
+	cardSorts map[string]bool
+	codecs map[string]bool
+	goHandler func(g *FnGen, s *State, x *ssa.Go, key string) bool
 }
 
 var defaultDropped = []string{
@@ -70,7 +73,7 @@ func newCtx(repo string, patterns []string, specDirs []string) (*Ctx, error) {
 		contracts: map[string]*FuncContract{}, bound: map[string]bool{}, specs: map[string]*SpecFun{}, specFile: map[string]*SpecFile{},
 		compiled: map[string]*compiledSpec{}, ghosts: map[string]GhostDecl{}, props: map[string][]string{},
 		globals: map[string]int{}, typeIDs: map[string]int{}, fnIDs: map[*ssa.Function]int{}, fnByID: map[int]*ssa.Function{},
-		floatLits: map[string]string{}, ctrFile: map[*FuncContract]*SpecFile{}, assumptionsUsed: map[string]bool{}}
+		cardSorts: map[string]bool{}, codecs: map[string]bool{}, floatLits: map[string]string{}, ctrFile: map[*FuncContract]*SpecFile{}, assumptionsUsed: map[string]bool{}}
 	for _, d := range defaultDropped {
 		c.dropped = append(c.dropped, regexp.MustCompile(d))
 	}
@@ -638,6 +641,18 @@ func (c *Ctx) prelude() string {
 		for s, n := range c.floatLits {
 			fmt.Fprintf(&b, "(declare-fun %s () Float) ; %s\n", n, s)
 		}
+	}
+	for ds := range c.cardSorts {
+		fmt.Fprintf(&b, "(declare-fun card_%s (%s) Int)\n(assert (forall ((d %s)) (! (>= (card_%s d) 0) :pattern ((card_%s d)))))\n", sanitize(heapName(ds)), ds, ds, sanitize(heapName(ds)), sanitize(heapName(ds)))
+	}
+	var cs []string
+	for srt := range c.codecs {
+		cs = append(cs, srt)
+	}
+	sort.Strings(cs)
+	for _, srt := range cs {
+		n := sanitize(srt)
+		fmt.Fprintf(&b, "(declare-fun enc_%s (%s) Str)\n(declare-fun dec_%s (Str) %s)\n(assert (forall ((v %s)) (! (= (dec_%s (enc_%s v)) v) :pattern ((enc_%s v)))))\n", n, srt, n, srt, srt, n, n, n)
 	}
 	for _, n := range c.specOrder {
 		b.WriteString(c.compiled[n].def + "\n")
